@@ -22,7 +22,7 @@ ASSUMPTIONS = ['gain polynomial values within 1e-9 (relative) of an integer may 
 PLAN = {'quick': {'gen': 8}, 'thorough': {'gen': 16, 'tests': 1, 'docs': 1}}
 REQUIRED_BUCKETS = ['qe:scalar', 'qe:vector', 'qe:spectrum', 'unit:nm', 'unit:um', 'unit:m', 'unit:angstrom', 'bayer:k=1',
                     'bayer:k=2', 'bayer:k=3', 'bayer:k=4', 'bayer:os=1', 'bayer:os=2', 'bayer:os>=3', 'bayer:nonsquare',
-                    'bayer:channels', 'gain:scalar', 'gain:poly', 'gain:pixel', 'gain:pixel-poly', 'adc:negative',
+                    'bayer:channels', 'bayer:spectrum-qe', 'bayer:unit!=nm', 'gain:scalar', 'gain:poly', 'gain:pixel', 'gain:pixel-poly', 'adc:negative',
                     'adc:saturated', 'adc:dtype', 'adc:warn']
 REQUIRED_ANCHORS = ['probe:collect_charge', 'probe:collect_charge_bayer', 'probe:adc', 'anchor:qe_asarray',
                     'anchor:format_bayer_string']
@@ -256,28 +256,34 @@ def workload(ctx, lentil):
             os_ = max(1, os_ // 2)
             shape = (nr * k * os_, nc * k * os_)
         img = rng.uniform(0, 1e3, size=(nw,) + shape)
-        wave = np.linspace(450, 800, nw) if nw > 1 else np.array([550.0])
+        bunit = sm.WAVE_CANON[int(rng.integers(0, 4))] if rng.random() < 0.5 else 'nm'
+        wave = (np.linspace(450, 800, nw) if nw > 1 else np.array([550.0])) * sm.wave_factor('nm', bunit)
         qes = [rng.uniform(0, 1, size=nw) if rng.random() < 0.6 else float(rng.uniform(0, 1)) for _ in range(3)]
-        if rng.random() < 0.3:
-            sw = np.linspace(400, 900, 12)
-            qes[int(rng.integers(0, 3))] = R.Spectrum(sw, rng.uniform(0, 1, size=12))
+        for ch in range(3):      # any channel may be given as a spectrum, in any wavelength unit
+            if rng.random() < 0.3:
+                qu = sm.WAVE_CANON[int(rng.integers(0, 4))]
+                sw = np.linspace(400, 900, 12) * sm.wave_factor('nm', qu)
+                qes[ch] = R.Spectrum(sw, rng.uniform(0.05, 1, size=12), waveunit=qu)
         flatten = bool(rng.random() < 0.6)
-        desc = {'bayer': pat, 'k': k, 'os': os_, 'native': [nr * k, nc * k], 'nw': nw, 'flatten': flatten}
+        desc = {'bayer': pat, 'k': k, 'os': os_, 'native': [nr * k, nc * k], 'nw': nw, 'flatten': flatten, 'unit': bunit,
+                'qe': [type(q).__name__ + (':' + q.waveunit if hasattr(q, 'waveunit') else '') for q in qes]}
         bks = [f'bayer:k={k}', 'bayer:os>=3' if os_ >= 3 else f'bayer:os={os_}'] + (['bayer:nonsquare'] if nr != nc else []) \
-            + ([] if flatten else ['bayer:channels'])
+            + ([] if flatten else ['bayer:channels']) + (['bayer:spectrum-qe'] if any(hasattr(q, 'waveunit') for q in qes) else []) \
+            + (['bayer:unit!=nm'] if bunit != 'nm' else [])
         ctx.case(desc, bks, nontrivial=True)
         try:
-            out = D.collect_charge_bayer(img, wave, qes[0], qes[1], qes[2], pat, oversample=os_, flatten=flatten)   # probe
+            bkw = {} if bunit == 'nm' and rng.random() < 0.5 else {'waveunit': bunit}
+            out = D.collect_charge_bayer(img, wave, qes[0], qes[1], qes[2], pat, oversample=os_, flatten=flatten, **bkw)   # probe
             # equal efficiencies reproduce the monochrome result
             q = rng.uniform(0, 1, size=nw)
-            mono = D.collect_charge(img, wave, q)
-            eq = D.collect_charge_bayer(img, wave, q, q, q, pat, oversample=os_)
+            mono = D.collect_charge(img, wave, q, waveunit=bunit)
+            eq = D.collect_charge_bayer(img, wave, q, q, q, pat, oversample=os_, waveunit=bunit)
             ctx.close('bayer:equal-qe=mono', eq, mono, 1e-12, 'bayer|equal-qe' + ('|os>=3' if os_ >= 3 else ''),
                       'equal efficiencies in all channels do not reproduce the monochrome result', desc,
                       scale=float(np.max(np.abs(mono))) + 1e-300)
             # channels sum to the flattened image
-            fl = D.collect_charge_bayer(img, wave, qes[0], qes[1], qes[2], pat, oversample=os_, flatten=True)
-            ch = D.collect_charge_bayer(img, wave, qes[0], qes[1], qes[2], pat, oversample=os_, flatten=False)
+            fl = D.collect_charge_bayer(img, wave, qes[0], qes[1], qes[2], pat, oversample=os_, flatten=True, waveunit=bunit)
+            ch = D.collect_charge_bayer(img, wave, qes[0], qes[1], qes[2], pat, oversample=os_, flatten=False, waveunit=bunit)
             ctx.close('bayer:channels-sum', ch[0] + ch[1] + ch[2], fl, 1e-12, 'bayer|channels-sum',
                       'the separate channel images do not sum to the flattened one', desc, scale=float(np.max(np.abs(fl))) + 1e-300)
         except Exception as e:
